@@ -45,7 +45,7 @@ func TestVerifC03API(t *testing.T) {
 		"Not(Row(f=%d))", "Row(t=%d, from='2016-01-01T00:00', to='2018-01-01T00:00')", "Union(Row(f=%d), Row(v > 2))", "Row(v > %d)",
 	}
 
-	n := r.N(160, 12000)
+	n := r.N(160, 6400)
 	r.Cases("api", n, func(i int, id string, rng *vk.Rand) {
 		gen++
 		index := fmt.Sprintf("c03x%d", gen)
